@@ -1,1 +1,402 @@
-fn main(){}
+//! API probe linked against /repo/libxcp and /repo/libfs (rebuilt by cargo whenever /repo changes).
+//!
+//!   probe extents <file>            JSON: map_extents, merged, SEEK_DATA/SEEK_HOLE segment walk
+//!   probe merge-list                stdin JSON [[start,end,shared],..] -> merged JSON
+//!   probe merge-exhaustive <U>      enumerate every sorted non-overlapping extent list over 0..=U,
+//!                                   check the merge laws, print a JSON summary
+//!   probe copy                      stdin JSON config -> run a driver as a library client, print the
+//!                                   update stream and the result as JSON
+
+use crossbeam_channel as cbc;
+use libfs::Extent;
+use libxcp::config::{Backup, Config, Reflink};
+use libxcp::drivers::{load_driver, Drivers};
+use libxcp::errors::Result as XResult;
+use libxcp::feedback::{ChannelUpdater, NoopUpdater, StatusUpdate, StatusUpdater};
+use serde::{Deserialize, Serialize};
+use serde_json::json;
+use std::fs::File;
+use std::io::{Read, Write};
+use std::path::PathBuf;
+use std::str::FromStr;
+use std::sync::{Arc, Mutex};
+use std::time::Duration;
+
+fn ext_json(v: &[Extent]) -> Vec<(u64, u64, bool)> {
+    v.iter().map(|e| (e.start, e.end, e.shared)).collect()
+}
+
+fn cmd_extents(path: &str) -> i32 {
+    let f = match File::open(path) {
+        Ok(f) => f,
+        Err(e) => {
+            println!("{}", json!({"error": e.to_string()}));
+            return 1;
+        }
+    };
+    let len = f.metadata().map(|m| m.len()).unwrap_or(0);
+    let sparse = libfs::probably_sparse(&f).map_err(|e| e.to_string());
+    let (map, merged) = match libfs::map_extents(&f) {
+        Ok(Some(v)) => {
+            let m = ext_json(&v);
+            let merged = libfs::merge_extents(v).map(|x| ext_json(&x)).map_err(|e| e.to_string());
+            (Ok(Some(m)), Some(merged))
+        }
+        Ok(None) => (Ok(None), None),
+        Err(e) => (Err(e.to_string()), None),
+    };
+    // segment walk exactly as the copy loops use it
+    let out = tempfile_out();
+    let mut segs: Vec<(u64, u64)> = vec![];
+    let mut seg_err: Option<String> = None;
+    let mut pos = 0u64;
+    let mut guard = 0;
+    while pos < len {
+        match libfs::next_sparse_segments(&f, &out, pos) {
+            Ok((d, h)) => {
+                segs.push((d, h));
+                if h <= pos {
+                    seg_err = Some(format!("no progress at pos {} (data {}, hole {})", pos, d, h));
+                    break;
+                }
+                pos = h;
+            }
+            Err(e) => {
+                seg_err = Some(e.to_string());
+                break;
+            }
+        }
+        guard += 1;
+        if guard > 1_000_000 {
+            seg_err = Some("segment walk does not terminate".into());
+            break;
+        }
+    }
+    println!(
+        "{}",
+        json!({"len": len, "probably_sparse": sparse.ok(), "map_extents": map.clone().ok(), "map_error": map.err(), "merged": merged.clone().and_then(|m| m.ok()),
+               "merge_error": merged.and_then(|m| m.err()), "segments": segs, "segments_error": seg_err})
+    );
+    0
+}
+
+fn tempfile_out() -> File {
+    let p = format!("/dev/shm/xv-probe-out-{}", std::process::id());
+    let f = std::fs::OpenOptions::new().read(true).write(true).create(true).truncate(true).open(&p).expect("temp out");
+    let _ = std::fs::remove_file(&p);
+    f
+}
+
+/// The merge laws of C19. Inputs are sorted and non-overlapping (touching allowed).
+pub fn merge_laws(input: &[(u64, u64)], output: &[(u64, u64)]) -> Result<(), String> {
+    // outputs ordered and disjoint
+    for w in output.windows(2) {
+        if w[0].1 > w[1].0 || w[0].0 > w[1].0 {
+            return Err(format!("outputs not ordered/disjoint: {:?} then {:?}", w[0], w[1]));
+        }
+    }
+    for o in output {
+        if o.0 > o.1 {
+            return Err(format!("inverted output range {:?}", o));
+        }
+        if !input.iter().any(|i| i.0 == o.0) {
+            return Err(format!("output {:?} does not begin at an input boundary", o));
+        }
+        if !input.iter().any(|i| i.1 == o.1) {
+            return Err(format!("output {:?} does not end at an input boundary", o));
+        }
+    }
+    // coverage: every input inside one output
+    for i in input {
+        if !output.iter().any(|o| o.0 <= i.0 && i.1 <= o.1) {
+            return Err(format!("input {:?} is not covered by a single output range", i));
+        }
+    }
+    // added bytes only in gaps between consecutive inputs within the same output
+    for o in output {
+        let inside: Vec<&(u64, u64)> = input.iter().filter(|i| o.0 <= i.0 && i.1 <= o.1).collect();
+        if let (Some(first), Some(last)) = (inside.first(), inside.last()) {
+            if first.0 != o.0 || last.1 != o.1 {
+                return Err(format!("output {:?} extends beyond the inputs it contains", o));
+            }
+        } else if o.0 != o.1 {
+            return Err(format!("output {:?} contains no input", o));
+        }
+    }
+    Ok(())
+}
+
+fn run_merge(input: &[(u64, u64)]) -> Result<Vec<(u64, u64)>, String> {
+    let v: Vec<Extent> = input.iter().map(|(s, e)| Extent { start: *s, end: *e, shared: false }).collect();
+    libfs::merge_extents(v).map(|m| m.iter().map(|e| (e.start, e.end)).collect()).map_err(|e| e.to_string())
+}
+
+fn cmd_merge_exhaustive(u: u64) -> i32 {
+    // enumerate every sorted list of non-empty, non-overlapping extents with boundaries in 0..=u
+    let mut lists: u64 = 0;
+    let mut nontrivial: u64 = 0;
+    let mut violation: Option<serde_json::Value> = None;
+    let mut samples: Vec<serde_json::Value> = vec![];
+    fn rec(from: u64, u: u64, cur: &mut Vec<(u64, u64)>, f: &mut dyn FnMut(&[(u64, u64)]) -> bool) -> bool {
+        if !f(cur) {
+            return false;
+        }
+        for s in from..u {
+            for e in (s + 1)..=u {
+                cur.push((s, e));
+                let cont = rec(e, u, cur, f);
+                cur.pop();
+                if !cont {
+                    return false;
+                }
+            }
+        }
+        true
+    }
+    let mut cur = vec![];
+    rec(0, u, &mut cur, &mut |l: &[(u64, u64)]| {
+        lists += 1;
+        let nt = l.len() >= 2 && l.windows(2).any(|w| w[1].0 - w[0].1 <= 1);
+        if nt {
+            nontrivial += 1;
+        }
+        match run_merge(l) {
+            Ok(out) => {
+                if let Err(why) = merge_laws(l, &out) {
+                    violation = Some(json!({"input": l, "output": out, "why": why}));
+                    return false;
+                }
+                if nt && samples.len() < 5 && lists % 97 == 3 {
+                    samples.push(json!({"input": l, "output": out}));
+                }
+            }
+            Err(e) => {
+                violation = Some(json!({"input": l, "why": format!("merge_extents failed: {}", e)}));
+                return false;
+            }
+        }
+        true
+    });
+    println!("{}", json!({"universe": u, "lists": lists, "nontrivial": nontrivial, "violation": violation, "samples": samples}));
+    0
+}
+
+fn cmd_merge_list() -> i32 {
+    let mut s = String::new();
+    std::io::stdin().read_to_string(&mut s).ok();
+    let input: Vec<(u64, u64)> = match serde_json::from_str(&s) {
+        Ok(v) => v,
+        Err(e) => {
+            println!("{}", json!({"error": e.to_string()}));
+            return 1;
+        }
+    };
+    match run_merge(&input) {
+        Ok(out) => println!("{}", json!({"output": out, "law_violation": merge_laws(&input, &out).err()})),
+        Err(e) => println!("{}", json!({"error": e})),
+    }
+    0
+}
+
+// ---------------------------------------------------------------- library-client copy probe
+
+#[derive(Deserialize)]
+struct CopyCfg {
+    driver: String,
+    sources: Vec<String>,
+    dest: String,
+    workers: usize,
+    block_size: u64,
+    /// "record" | "channel" | "noop"
+    updater: String,
+    #[serde(default)]
+    no_clobber: bool,
+    #[serde(default)]
+    no_perms: bool,
+    #[serde(default)]
+    no_timestamps: bool,
+    #[serde(default)]
+    fsync: bool,
+    #[serde(default)]
+    dereference: bool,
+    #[serde(default)]
+    reflink: String,
+    #[serde(default)]
+    backup: String,
+    /// append one line per update to this file (the supervisor orders them against data calls)
+    #[serde(default)]
+    marker: Option<String>,
+    /// give up waiting for the stream to end after this many ms
+    #[serde(default)]
+    drain_timeout_ms: Option<u64>,
+}
+
+#[derive(Serialize, Clone)]
+struct Upd {
+    k: &'static str,
+    v: u64,
+    th: u64,
+    #[serde(skip_serializing_if = "Option::is_none")]
+    msg: Option<String>,
+}
+
+struct Recording {
+    log: Mutex<Vec<Upd>>,
+    marker: Option<Mutex<File>>,
+}
+
+fn thread_no() -> u64 {
+    // stable small number per thread
+    let s = format!("{:?}", std::thread::current().id());
+    s.chars().filter(|c| c.is_ascii_digit()).collect::<String>().parse().unwrap_or(0)
+}
+
+fn upd_of(u: &StatusUpdate) -> Upd {
+    match u {
+        StatusUpdate::Copied(v) => Upd { k: "Copied", v: *v, th: thread_no(), msg: None },
+        StatusUpdate::Size(v) => Upd { k: "Size", v: *v, th: thread_no(), msg: None },
+        StatusUpdate::Error(e) => Upd { k: "Error", v: 0, th: thread_no(), msg: Some(e.to_string()) },
+    }
+}
+
+impl StatusUpdater for Recording {
+    fn send(&self, update: StatusUpdate) -> XResult<()> {
+        let u = upd_of(&update);
+        if let Some(m) = &self.marker {
+            let mut f = m.lock().unwrap();
+            let _ = f.write_all(format!("{} {}\n", u.k, u.v).as_bytes());
+        }
+        self.log.lock().unwrap().push(u);
+        Ok(())
+    }
+}
+
+fn cmd_copy() -> i32 {
+    let mut s = String::new();
+    std::io::stdin().read_to_string(&mut s).ok();
+    let cfg: CopyCfg = match serde_json::from_str(&s) {
+        Ok(c) => c,
+        Err(e) => {
+            println!("{}", json!({"error": format!("bad config: {e}")}));
+            return 2;
+        }
+    };
+    let config = Arc::new(Config {
+        workers: cfg.workers,
+        block_size: cfg.block_size,
+        gitignore: false,
+        no_clobber: cfg.no_clobber,
+        no_perms: cfg.no_perms,
+        no_timestamps: cfg.no_timestamps,
+        ownership: false,
+        dereference: cfg.dereference,
+        no_target_directory: false,
+        fsync: cfg.fsync,
+        reflink: Reflink::from_str(if cfg.reflink.is_empty() { "auto" } else { &cfg.reflink }).unwrap_or(Reflink::Auto),
+        backup: Backup::from_str(if cfg.backup.is_empty() { "none" } else { &cfg.backup }).unwrap_or(Backup::None),
+    });
+    let drv = match Drivers::from_str(&cfg.driver).and_then(|d| load_driver(d, &config).map_err(|e| libxcp::errors::XcpError::UnknownDriver(e.to_string()))) {
+        Ok(d) => d,
+        Err(e) => {
+            println!("{}", json!({"error": format!("driver: {e}")}));
+            return 2;
+        }
+    };
+    let sources: Vec<PathBuf> = cfg.sources.iter().map(PathBuf::from).collect();
+    let dest = PathBuf::from(&cfg.dest);
+    let marker = cfg.marker.as_ref().map(|p| Mutex::new(std::fs::OpenOptions::new().create(true).append(true).open(p).expect("marker file")));
+    let timeout = Duration::from_millis(cfg.drain_timeout_ms.unwrap_or(20_000));
+
+    let mut updates: Vec<Upd> = vec![];
+    let mut closed = true;
+    let result: Result<(), String>;
+    let mut returned = true;
+    match cfg.updater.as_str() {
+        "channel" => {
+            let updater = ChannelUpdater::new(&config);
+            let rx = updater.rx_channel();
+            let stats: Arc<dyn StatusUpdater> = Arc::new(updater);
+            let (done_tx, done_rx) = cbc::bounded::<Result<(), String>>(1);
+            std::thread::spawn(move || {
+                let r = drv.copy(sources, &dest, stats).map_err(|e| e.to_string());
+                let _ = done_tx.send(r);
+            });
+            // the documented client loop: iterate until the channel closes
+            loop {
+                match rx.recv_timeout(timeout) {
+                    Ok(u) => {
+                        let x = upd_of(&u);
+                        if let Some(m) = &marker {
+                            let _ = m.lock().unwrap().write_all(format!("{} {}\n", x.k, x.v).as_bytes());
+                        }
+                        updates.push(x);
+                    }
+                    Err(cbc::RecvTimeoutError::Disconnected) => break,
+                    Err(cbc::RecvTimeoutError::Timeout) => {
+                        closed = false;
+                        break;
+                    }
+                }
+            }
+            match done_rx.recv_timeout(timeout) {
+                Ok(r) => result = r,
+                Err(_) => {
+                    returned = false;
+                    result = Err("copy() did not return".into());
+                }
+            }
+        }
+        "noop" => {
+            let stats: Arc<dyn StatusUpdater> = Arc::new(NoopUpdater);
+            let (done_tx, done_rx) = cbc::bounded::<Result<(), String>>(1);
+            std::thread::spawn(move || {
+                let r = drv.copy(sources, &dest, stats).map_err(|e| e.to_string());
+                let _ = done_tx.send(r);
+            });
+            match done_rx.recv_timeout(timeout) {
+                Ok(r) => result = r,
+                Err(_) => {
+                    returned = false;
+                    result = Err("copy() did not return".into());
+                }
+            }
+        }
+        _ => {
+            let recu = Arc::new(Recording { log: Mutex::new(vec![]), marker });
+            let stats: Arc<dyn StatusUpdater> = recu.clone();
+            let (done_tx, done_rx) = cbc::bounded::<Result<(), String>>(1);
+            std::thread::spawn(move || {
+                let r = drv.copy(sources, &dest, stats).map_err(|e| e.to_string());
+                let _ = done_tx.send(r);
+            });
+            match done_rx.recv_timeout(timeout) {
+                Ok(r) => result = r,
+                Err(_) => {
+                    returned = false;
+                    result = Err("copy() did not return".into());
+                }
+            }
+            updates = recu.log.lock().unwrap().clone();
+            // for a client-supplied updater "the stream ends" = nobody holds the updater any more
+            closed = Arc::strong_count(&recu) == 1;
+        }
+    }
+    println!("{}", json!({"ok": result.is_ok(), "error": result.err(), "returned": returned, "closed": closed, "updates": updates}));
+    println!("RETURNED");
+    0
+}
+
+fn main() {
+    let args: Vec<String> = std::env::args().collect();
+    let code = match args.get(1).map(|s| s.as_str()) {
+        Some("extents") => cmd_extents(args.get(2).map(|s| s.as_str()).unwrap_or("")),
+        Some("merge-list") => cmd_merge_list(),
+        Some("merge-exhaustive") => cmd_merge_exhaustive(args.get(2).and_then(|s| s.parse().ok()).unwrap_or(8)),
+        Some("copy") => cmd_copy(),
+        _ => {
+            eprintln!("usage: probe extents <file> | merge-list | merge-exhaustive <U> | copy");
+            2
+        }
+    };
+    std::process::exit(code);
+}
